@@ -126,11 +126,18 @@ def run(ctx):
         forms.append(({"y": s.encode().hex()}, False, "bytes"))
     for kind in ("Conv1d", "Conv2d"):
         for pad, ok, form in forms:
-            if kind == "Conv1d":
-                kw = [["input_shape", gen.pyint(9)], ["weight", gen.arr(rng, [2, 1, 3])]]
-            else:
-                kw = [["input_shape", {"t": [gen.pyint(9), gen.pyint(8)]}], ["weight", gen.arr(rng, [2, 1, 3, 3])]]
-            kw += [["stride", gen.pyint(1)], ["padding", pad], ["dilation", gen.pyint(1)], ["groups", gen.pyint(1)],
-                   ["bias", gen.arr(rng, [2])]]
-            one({"type": kind, "kwargs": kw}, ok, f"{kind}_padding_{form}", {"site": kind, "padding": form})
+            for shape_given in (True, False):
+                if not shape_given:
+                    ishape = None
+                elif kind == "Conv1d":
+                    ishape = gen.pyint(9)
+                else:
+                    ishape = {"t": [gen.pyint(9), gen.pyint(8)]}
+                w = [2, 1, 3] if kind == "Conv1d" else [2, 1, 3, 3]
+                kw = [["input_shape", ishape], ["weight", gen.arr(rng, w)],
+                      ["stride", gen.pyint(1)], ["padding", pad], ["dilation", gen.pyint(1)], ["groups", gen.pyint(1)],
+                      ["bias", gen.arr(rng, [2])]]
+                one({"type": kind, "kwargs": kw}, ok, f"{kind}_padding_{form}",
+                    {"site": kind, "padding": form, "input_shape": "given" if shape_given else "none"},
+                    types_defined=shape_given)
     ctx.compare("nodes", cases, obs, reqs)
